@@ -2,11 +2,12 @@ package main
 
 import (
 	"fmt"
-	"os"
-	"path/filepath"
+	"go/ast"
 	"go/constant"
 	"go/token"
 	"go/types"
+	"os"
+	"path/filepath"
 	"sort"
 	"strings"
 
@@ -23,9 +24,11 @@ func refuse(format string, args ...interface{}) {
 // loops
 
 type loopInfo struct {
-	header  *ssa.BasicBlock
-	ordinal int
-	body    map[*ssa.BasicBlock]bool
+	header   *ssa.BasicBlock
+	ordinal  int
+	body     map[*ssa.BasicBlock]bool
+	lo, hi   token.Pos
+	spanDone bool
 }
 
 func (e *Engine) loopsOf(fn *ssa.Function) map[*ssa.BasicBlock]*loopInfo {
@@ -343,6 +346,14 @@ func (vc *VC) fnName() string {
 }
 
 // oblige records an obligation: on this path, goal must hold.
+// unprovable records a clause of the function under contract that cannot even be stated over the
+// current code (it names a variable, loop, go statement or call the body no longer has): the
+// obligation is undischarged, which is a failed obligation and not a defect of the checker.
+func (vc *VC) unprovable(kind string, props []string, pos string, err error) {
+	vc.obls = append(vc.obls, &Obligation{Name: vc.oblName(kind), Props: props, Func: vc.fnName(), FuncKey: vc.key, Kind: kind, Path: vc.npaths, Pos: pos,
+		Goal: "false", Result: SolveResult{Answer: "unknown", Solver: "spec", Output: "the clause cannot be evaluated over the current body: " + err.Error()}})
+}
+
 func (vc *VC) oblige(st *State, kind string, goal *Term, props []string, pos string) {
 	if goal.S == "true" {
 		// trivially discharged; still counted, no solver call needed
@@ -555,6 +566,31 @@ func (vc *VC) evalPhis(st *State, f *Frame, from, to *ssa.BasicBlock) {
 	for k, v := range newVals {
 		f.regs[k] = v
 	}
+	// a phi named after a source variable is that variable's current binding from here on
+	for _, ins := range to.Instrs {
+		phi, ok := ins.(*ssa.Phi)
+		if !ok {
+			break
+		}
+		if phi.Comment == "" || f.names == nil {
+			continue
+		}
+		if _, known := f.names[phi.Comment]; !known {
+			continue
+		}
+		for o, v := range f.objs {
+			if o.Name() != phi.Comment {
+				continue
+			}
+			for _, ev := range phi.Edges {
+				if ev == v {
+					f.objs[o] = phi
+					break
+				}
+			}
+		}
+		f.names[phi.Comment] = phi
+	}
 	f.idx = n
 }
 
@@ -621,6 +657,10 @@ func (vc *VC) step(st *State) []*State {
 			name = x.Call.Method.FullName()
 		}
 		st.events = append(st.events, Event{Kind: "go", Name: name, Args: append([]Value{fnv}, args...)})
+		if len(st.frames) == 1 {
+			vc.logSpawn(st, f, x, vc.spawnValues(st, fnv, args))
+		}
+		vc.checkSpawnRequires(st, f, x, fnv, args)
 		f.idx++
 		return nil
 	case *ssa.Call:
@@ -667,6 +707,14 @@ func (vc *VC) simple(st *State, f *Frame, ins ssa.Instruction) {
 	T := vc.eng.st
 	switch x := ins.(type) {
 	case *ssa.DebugRef:
+		if obj := x.Object(); obj != nil && !x.IsAddr {
+			if f.names == nil {
+				f.names = map[string]ssa.Value{}
+				f.objs = map[types.Object]ssa.Value{}
+			}
+			f.names[obj.Name()] = x.X
+			f.objs[obj] = x.X
+		}
 	case *ssa.Alloc:
 		elem := x.Type().(*types.Pointer).Elem()
 		if arr, ok := types.Unalias(elem).Underlying().(*types.Array); ok {
@@ -839,6 +887,7 @@ func (vc *VC) unop(st *State, f *Frame, x *ssa.UnOp) Value {
 		vc.nilCheck(st, p, "load", x.Pos())
 		vc.guardCheck(st, f, x.X, x.Pos())
 		v := vc.load(st, p)
+		vc.noteGuardedMap(st, f, x.X, v)
 		return v
 	case token.NOT:
 		return Not(vc.tv(st, f, x.X))
@@ -1359,6 +1408,65 @@ func (vc *VC) havocLoop(st *State, f *Frame, li *loopInfo) {
 		}
 	}
 	// the clock only grows
+	// ghost spawn logs of go statements inside the loop
+	for b := range li.body {
+		for _, ins := range b.Instrs {
+			if g, ok := ins.(*ssa.Go); ok {
+				site := goOrdinal(g)
+				cn := fmt.Sprintf("spawn%d_n", site)
+				nc := vc.fresh(cn, sortInt)
+				st.assume(Bin(sortBool, ">=", nc, IntLit(0)))
+				st.ghosts[cn] = nc
+				gargs, _ := vc.evalSpawnSorts(g)
+				for j, srt := range gargs {
+					an := fmt.Sprintf("spawn%d_a%d", site, j)
+					st.ghosts[an] = vc.fresh(an, vc.eng.st.ArrayOf(sortInt, srt))
+				}
+			}
+		}
+	}
+	// ghost call logs of contracted in-repo functions called inside the loop
+	for b := range li.body {
+		for _, ins := range b.Instrs {
+			cc, ok := ins.(ssa.CallInstruction)
+			if !ok {
+				continue
+			}
+			callee := cc.Common().StaticCallee()
+			if callee == nil || vc.eng.contractOf(callee) == nil {
+				if key := funcFieldOf(cc.Common().Value); key != "" {
+					if _, has := vc.eng.db.ByField[key]; has {
+						nm := key[strings.LastIndex(key, ".")+1:]
+						nc := vc.fresh("call_"+nm+"_n", sortInt)
+						if old, ok := st.ghosts["call_"+nm+"_n"]; ok {
+							st.assume(Bin(sortBool, ">=", nc, old))
+						} else {
+							st.assume(Bin(sortBool, ">=", nc, IntLit(0)))
+						}
+						st.ghosts["call_"+nm+"_n"] = nc
+						sig := cc.Common().Signature()
+						for j := 0; j < sig.Params().Len(); j++ {
+							an := fmt.Sprintf("call_%s_a%d", nm, j)
+							st.ghosts[an] = vc.fresh(an, vc.eng.st.ArrayOf(sortInt, vc.eng.st.SortOf(sig.Params().At(j).Type())))
+						}
+					}
+				}
+				continue
+			}
+			cn := "call_" + callee.Name() + "_n"
+			nc := vc.fresh(cn, sortInt)
+			if old, ok := st.ghosts[cn]; ok {
+				st.assume(Bin(sortBool, ">=", nc, old))
+			} else {
+				st.assume(Bin(sortBool, ">=", nc, IntLit(0)))
+			}
+			st.ghosts[cn] = nc
+			for j, p := range callee.Params {
+				an := fmt.Sprintf("call_%s_a%d", callee.Name(), j)
+				st.ghosts[an] = vc.fresh(an, vc.eng.st.ArrayOf(sortInt, vc.eng.st.SortOf(p.Type())))
+			}
+		}
+	}
 	for _, m := range mods {
 		if m.kind == "clock" || m.kind == "all" {
 			nc := vc.fresh("clock", sortInt)
@@ -1392,6 +1500,9 @@ func (vc *VC) havocAll(st *State) {
 		}
 	}
 	for name, g := range st.ghosts {
+		if strings.HasPrefix(name, "spawn") || strings.HasPrefix(name, "call_") {
+			continue // the logs of this function's own go statements and calls: nobody else writes them
+		}
 		st.ghosts[name] = vc.fresh("G_"+name, g.Sort)
 	}
 }
@@ -1507,7 +1618,11 @@ func (vc *VC) loopInvariants(st *State, f *Frame, li *loopInfo, mode string) {
 	for _, cl := range clauses {
 		t, err := env.EvalBool(cl.E)
 		if err != nil {
-			vc.eng.specError(fmt.Sprintf("%s: loop %d invariant [%s]: %v", f.fn, li.ordinal, cl.Label, err))
+			if mode != "assume" && len(st.frames) == 1 {
+				vc.unprovable(fmt.Sprintf("%s/loop%d[%s]", mode, li.ordinal, cl.Label), vc.clauseProps(c, cl), vc.posOf(li.header.Instrs[0].Pos()), err)
+			} else if len(st.frames) > 1 {
+				vc.eng.specError(fmt.Sprintf("%s: loop %d invariant [%s]: %v", f.fn, li.ordinal, cl.Label, err))
+			}
 			continue
 		}
 		switch mode {
@@ -1657,6 +1772,15 @@ func (vc *VC) localByName(env *Env, name string) (SV, bool) {
 			}
 		}
 	}
+	// the value most recently bound to the variable along this path
+	if v, ok := vc.boundValue(f, env.loop, name); ok {
+		if _, have := f.regs[v]; have {
+			return SV{vc.term(env.st, f.regs[v], "spec"), v.Type()}, true
+		}
+		if c, isConst := v.(*ssa.Const); isConst {
+			return SV{vc.term(env.st, vc.constValue(c), "spec"), v.Type()}, true
+		}
+	}
 	refs := vc.eng.debugRefs(f.fn)[name]
 	var cand ssa.Value
 	isAddr := false
@@ -1695,6 +1819,83 @@ func (vc *VC) localByName(env *Env, name string) (SV, bool) {
 		return SV{vc.load(env.st, vc.asPtr(v, pt)), pt}, true
 	}
 	return SV{vc.term(env.st, v, "spec"), cand.Type()}, true
+}
+
+// boundValue: the SSA value most recently bound to the source variable called name. When several
+// declared variables share the name (shadowing), one declared inside the loop whose invariant is
+// being evaluated cannot be meant: at the loop header only the outer one is in scope.
+func (vc *VC) boundValue(f *Frame, li *loopInfo, name string) (ssa.Value, bool) {
+	if f == nil || f.names == nil {
+		return nil, false
+	}
+	if li != nil {
+		var objs []types.Object
+		seen := map[types.Object]bool{}
+		for _, d := range vc.eng.debugRefs(f.fn)[name] {
+			if o := d.Object(); o != nil && !seen[o] {
+				seen[o] = true
+				objs = append(objs, o)
+			}
+		}
+		if len(objs) > 1 {
+			lo, hi := vc.eng.loopSpan(li)
+			var outer []types.Object
+			for _, o := range objs {
+				if !(lo.IsValid() && o.Pos() >= lo && o.Pos() <= hi) {
+					outer = append(outer, o)
+				}
+			}
+			if len(outer) == 1 {
+				v, ok := f.objs[outer[0]]
+				return v, ok
+			}
+		}
+	}
+	v, ok := f.names[name]
+	return v, ok
+}
+
+// loopSpan: the source range covered by the instructions of a loop's blocks.
+func (e *Engine) loopSpan(li *loopInfo) (lo, hi token.Pos) {
+	if li.spanDone {
+		return li.lo, li.hi
+	}
+	for b := range li.body {
+		for _, ins := range b.Instrs {
+			if _, dbg := ins.(*ssa.DebugRef); dbg {
+				continue
+			}
+			p := ins.Pos()
+			if !p.IsValid() {
+				continue
+			}
+			if !lo.IsValid() || p < lo {
+				lo = p
+			}
+			if p > hi {
+				hi = p
+			}
+		}
+	}
+	// widen to the enclosing for/range statement of the source, so that variables declared by
+	// the statement's own clause count as declared inside the loop
+	if syn := li.header.Parent().Syntax(); syn != nil && lo.IsValid() {
+		var best ast.Node
+		ast.Inspect(syn, func(n ast.Node) bool {
+			switch n.(type) {
+			case *ast.ForStmt, *ast.RangeStmt:
+				if n.Pos() <= lo && hi <= n.End() && (best == nil || n.End()-n.Pos() < best.End()-best.Pos()) {
+					best = n
+				}
+			}
+			return true
+		})
+		if best != nil {
+			lo, hi = best.Pos(), best.End()
+		}
+	}
+	li.lo, li.hi, li.spanDone = lo, hi, true
+	return
 }
 
 func (e *Engine) debugRefs(fn *ssa.Function) map[string][]*ssa.DebugRef {
@@ -1764,4 +1965,111 @@ func (e *Engine) constGlobal(g *ssa.Global) *ssa.Const {
 	}
 	e.constGlobals[g] = found
 	return found
+}
+
+// goOrdinal: the ordinal of a go statement among the go statements of its function (source order).
+func goOrdinal(g *ssa.Go) int {
+	n := 0
+	for _, b := range g.Parent().Blocks {
+		for _, ins := range b.Instrs {
+			if x, ok := ins.(*ssa.Go); ok {
+				if x == g {
+					return n
+				}
+				n++
+			}
+		}
+	}
+	return -1
+}
+
+// logSpawn appends to the ghost spawn log of a go statement: spawncount(site) goroutines were
+// started there so far; spawnarg(site, j)[k] is argument j of the k-th of them.
+func (vc *VC) logSpawn(st *State, f *Frame, g *ssa.Go, args []Value) {
+	site := goOrdinal(g)
+	cn := fmt.Sprintf("spawn%d_n", site)
+	cnt, ok := st.ghosts[cn]
+	if !ok {
+		cnt = IntLit(0)
+	}
+	for j, a := range args {
+		at := vc.term(st, a, "spawn")
+		an := fmt.Sprintf("spawn%d_a%d", site, j)
+		arr, ok := st.ghosts[an]
+		if !ok {
+			arr = vc.eng.st.Zero(vc.eng.st.ArrayOf(sortInt, at.Sort))
+		}
+		st.ghosts[an] = Store(arr, cnt, at)
+	}
+	st.ghosts[cn] = Bin(sortInt, "+", cnt, IntLit(1))
+}
+
+func (vc *VC) evalSpawnSorts(g *ssa.Go) ([]*Sort, bool) {
+	var out []*Sort
+	c := &g.Call
+	if c.IsInvoke() {
+		out = append(out, sortIface)
+	}
+	for _, t := range spawnSlotTypes(g) {
+		out = append(out, vc.eng.st.SortOf(t))
+	}
+	return out, true
+}
+
+// spawnSlotTypes: what a go statement hands to the goroutine it starts: the call arguments, followed
+// by the variables a function literal captures (their values at the time of the go statement).
+func spawnSlotTypes(g *ssa.Go) []types.Type {
+	var out []types.Type
+	for _, a := range g.Call.Args {
+		out = append(out, a.Type())
+	}
+	if mc, ok := g.Call.Value.(*ssa.MakeClosure); ok {
+		for _, fv := range mc.Fn.(*ssa.Function).FreeVars {
+			out = append(out, fv.Type().Underlying().(*types.Pointer).Elem())
+		}
+	}
+	return out
+}
+
+func (vc *VC) spawnValues(st *State, fnv Value, args []Value) []Value {
+	out := append([]Value{}, args...)
+	if cl, ok := fnv.(*Closure); ok {
+		for i, fv := range cl.Fn.FreeVars {
+			if i >= len(cl.Bind) {
+				break
+			}
+			pt := fv.Type().Underlying().(*types.Pointer).Elem()
+			out = append(out, vc.load(st, vc.asPtr(cl.Bind[i], pt)))
+		}
+	}
+	return out
+}
+
+// checkSpawnRequires: the preconditions of a function literal started as a goroutine are checked
+// where it is started, over its arguments and the current values of the variables it captures.
+func (vc *VC) checkSpawnRequires(st *State, f *Frame, g *ssa.Go, fnv Value, args []Value) {
+	cl, ok := fnv.(*Closure)
+	if !ok {
+		return
+	}
+	ct := vc.eng.contractOf(cl.Fn)
+	if ct == nil || len(ct.Requires) == 0 {
+		return
+	}
+	env := vc.contractEnv(st, ct, cl.Fn.Signature, args, cl.Fn, "func")
+	for i, fv := range cl.Fn.FreeVars {
+		if i >= len(cl.Bind) {
+			break
+		}
+		pt := fv.Type().Underlying().(*types.Pointer).Elem()
+		env.bind(fv.Name(), SV{V: vc.term(st, vc.load(st, vc.asPtr(cl.Bind[i], pt)), fv.Name()), T: pt})
+	}
+	for _, rq := range ct.Requires {
+		t, err := env.EvalBool(rq.E)
+		if err != nil {
+			vc.eng.specError(fmt.Sprintf("%s: requires of %s at its go statement: %v", vc.fn, cl.Fn, err))
+			continue
+		}
+		vc.oblige(st, fmt.Sprintf("pre[%s]@go#%d", rq.Label, goOrdinal(g)), t, ct.Props, vc.posOf(g.Pos()))
+	}
 }
